@@ -30,7 +30,9 @@ tw.THEMES.setdefault("MX", MX)
 # (the decoded value) must be what the second parse decodes again, under every quoting decision of the serializer
 MXA = ["<a href=", '<a href="', "javascript", ":", "&amp;colon;", "&amp;#58;", "&amp;", "colon;", "x", '">', ">", " ", "'",
        # allowed attributes whose VALUE contains what would be markup if the serializer left it unquoted
-       '<a title="x onmouseover=1">', '<a title="x><img src=x onerror=1>">', "<a title='x\tstyle=y'>", '<a title="x`onmouseover=1">', "&lt;?", "&lt;!"]
+       '<a title="x onmouseover=1">', '<a title="x><img src=x onerror=1>">', "<a title='x\tstyle=y'>", '<a title="x`onmouseover=1">', "&lt;?", "&lt;!",
+       "<noscript><a title='</noscript><img src=x onerror=1>'>",
+       "<a href=javascript&amp;colon;x>", "<a href=java&amp;Tab;script&amp;#58;x title=&amp;quot;>"]      # (known finding noscript-reread: scripting-on readers)
 tw.THEMES.setdefault("MXA", MXA)
 MXC = ["<svg>", "<math>", "<mtext>", "<annotation-xml encoding=text/html>", "<foreignObject>", "<title>", "<style>", "<noscript>", "<textarea>",
        "<xmp>", "<table>", "<select>", "<p>", "</p>", "<a>", "<img src=x onerror=1>", "<!--", "-->", "</style>", "</svg>", "x",
@@ -69,6 +71,8 @@ def pipeline(text, container, kw, opts):
         cause = "html-child-of-foreign:"
     elif integration_point_escaped(canon, kw.get("allowed_elements", s.allowed_elements)):
         cause = "integration-point-escaped:"
+    if not cause and noscript_reread(canon):
+        cause = "?noscript-reread:"          # (applies to re-parses with scripting on only, see judge)
     return out, emitted, cause
 
 
@@ -77,6 +81,30 @@ def _is_integration_point(n):
            (n[1] == MATHML_NS and n[2] in ("mi", "mo", "mn", "ms", "mtext")) or \
            (n[1] == MATHML_NS and n[2] == "annotation-xml" and
             dict((k[1], v.lower()) for k, v in n[3]).get("encoding") in ("text/html", "application/xhtml+xml"))
+
+
+def noscript_reread(tree):
+    """Does the FIRST tree (built with scripting off, so <noscript> has element children) contain an HTML noscript
+    element with "</noscript" somewhere inside it - in the text of a raw-text / RCDATA descendant, in an attribute value
+    or in a comment?  A reader with scripting ON takes the content of <noscript> as raw text that ends at the first
+    "</noscript", so whatever follows that point in the serialized content is parsed as markup."""
+    def inside(n):
+        if n[0] in ("text", "comment"):
+            return "</noscript" in n[1].lower()
+        if n[0] != "elem":
+            return False
+        if any("</noscript" in v.lower() for _, v in n[3]):
+            return True
+        return any(inside(k) for k in n[4])
+    stack = list(tree)
+    while stack:
+        n = stack.pop()
+        if n[0] != "elem":
+            continue
+        if n[1] == HTML_NS and n[2] == "noscript" and any(inside(k) for k in n[4]):
+            return True
+        stack.extend(n[4])
+    return False
 
 
 def integration_point_escaped(tree, elements):
@@ -160,6 +188,8 @@ def judge(text):
                         t = trees.canon_dom(d)
                         r = check_tree(t, kw, emitted, rmode is None)
                         if r:
+                            if hcf.startswith("?"):
+                                hcf = hcf[1:] if scripting else ""
                             return (r[0], hcf + r[1].split(":")[0] + (":scripting" if scripting and not hcf else ""),
                                     {"container": container, "config": cname, "opts": oi, "reparse": rmode, "scripting": scripting},
                                     {"sanitized_markup": out, "reparsed": trees.pretty(t)})
@@ -208,7 +238,7 @@ def run(run):
         res.transitions += resc.transitions
         res.obs |= resc.obs
         res.violations += resc.violations
-    resa = engine.product_bfs(step, len(MXA), 4, ctx=("MXA",))
+    resa = engine.product_bfs(step, len(MXA), 3 if quick else 4, ctx=("MXA",))
     for v in res.violations + resa.violations:
         if v.diff_class not in classes or len(v.case) < len(classes[v.diff_class].case):
             classes[v.diff_class] = v
